@@ -248,21 +248,21 @@ theorem mapRes_ids (enc : TP → Nat) (r : PRes (List α × List (TP × α))) : 
   cases r <;> rfl
 
 theorem machine_comm [DecidableEq α] {n : Nat} {enc : TP → Nat} {Valid : TP → Prop} {special : TP}
-    (L : EncLaws n enc Valid special) (H : α → α → α) (root : α) (bits : List Bool) (hashes : List α)
+    (L : EncLaws n enc Valid special) (H : α → α → α) (maxTx : Nat) (root : α) (bits : List Bool) (hashes : List α)
     (f : Nat) :
-    (machine (goOps n) H n root bits hashes f).ids = (machine (treeOps n) H n root bits hashes f).ids := by
+    (machine (goOps n) H maxTx n root bits hashes f).ids = (machine (treeOps n) H maxTx n root bits hashes f).ids := by
   unfold machine
   by_cases hn : n = 0
   · simp only [hn, if_true]; rfl
-  · by_cases hb : bits.isEmpty = true
-    · simp only [hn, if_false, hb, if_true]; rfl
-    · simp only [hn, if_false, hb, Bool.false_eq_true]
-      have := run_comm L H root f ⟨[], (treeOps n).root, bits, hashes, [], []⟩
-        ⟨by intro e he; simp at he, Or.inl L.root_valid⟩
-      simp only [mapSt, List.map_nil, ← L.enc_root] at this
-      rw [this, mapRes_ids]
-
-
+  · by_cases hm : n > maxTx
+    · simp only [hn, if_false, hm, if_true]; rfl
+    · by_cases hb : bits.isEmpty = true
+      · simp only [hn, if_false, hm, hb, if_true]; rfl
+      · simp only [hn, if_false, hm, hb, Bool.false_eq_true]
+        have := run_comm L H root f ⟨[], (treeOps n).root, bits, hashes, [], []⟩
+          ⟨by intro e he; simp at he, Or.inl L.root_valid⟩
+        simp only [mapSt, List.map_nil, ← L.enc_root] at this
+        rw [this, mapRes_ids]
 
 /-! ### 2. bit-level lemmas -/
 
@@ -617,17 +617,17 @@ theorem encLaws (n : Nat) (hn : 0 < n) :
       simp [this]
 
 /-- **the Go stack machine computes the recursive specification** (all messages, enough fuel). -/
-theorem go_machine_refines [DecidableEq α] (H : α → α → α) (n : Nat) (root : α) (bits : List Bool)
+theorem go_machine_refines [DecidableEq α] (H : α → α → α) (maxTx n : Nat) (root : α) (bits : List Bool)
     (hashes : List α) :
-    ∃ k, ∀ f, (machine (goOps n) H n root bits hashes (k + f)).ids =
-      (extractTop H n root bits hashes).ids := by
+    ∃ k, ∀ f, (machine (goOps n) H maxTx n root bits hashes (k + f)).ids =
+      (extractTop H maxTx n root bits hashes).ids := by
   by_cases hn : n = 0
   · refine ⟨0, fun f => ?_⟩
     unfold machine extractTop
     simp only [hn, if_true]
     rfl
-  · obtain ⟨k, hk⟩ := machine_refines H n root bits hashes
-    exact ⟨k, fun f => (machine_comm (encLaws n (by omega)) H root bits hashes (k + f)).trans (hk f)⟩
+  · obtain ⟨k, hk⟩ := machine_refines H maxTx n root bits hashes
+    exact ⟨k, fun f => (machine_comm (encLaws n (by omega)) H maxTx root bits hashes (k + f)).trans (hk f)⟩
 
 open ElaVerif.Merkle
 
@@ -761,5 +761,45 @@ theorem route_eq (n ti : Nat) : ∀ (c k : Nat),
       · apply List.map_congr_left
         intro t _
         simp only [Function.comp, show k + 1 + t = k + (t + 1) by omega]
+
+/-! ### flag bytes -/
+
+theorem unpack_pack8 : ∀ a b c d e f g h : Bool,
+    unpackByte (UInt8.ofNat (packByte [a, b, c, d, e, f, g, h])) = [a, b, c, d, e, f, g, h] := by decide
+
+theorem unpack_pack_short : ∀ (chunk : List Bool), chunk.length ≤ 8 →
+    unpackByte (UInt8.ofNat (packByte chunk)) = chunk ++ List.replicate (8 - chunk.length) false
+  | [], _ => by decide
+  | [a], _ => by revert a; decide
+  | [a, b], _ => by revert a b; decide
+  | [a, b, c], _ => by revert a b c; decide
+  | [a, b, c, d], _ => by revert a b c d; decide
+  | [a, b, c, d, e], _ => by revert a b c d e; decide
+  | [a, b, c, d, e, f], _ => by revert a b c d e f; decide
+  | [a, b, c, d, e, f, g], _ => by revert a b c d e f g; decide
+  | [a, b, c, d, e, f, g, h], _ => by simpa using unpack_pack8 a b c d e f g h
+  | _ :: _ :: _ :: _ :: _ :: _ :: _ :: _ :: _ :: _, hl => by simp at hl
+
+theorem unpack_pack : ∀ (fuel : Nat) (bs : List Bool), bs.length < fuel →
+    ∃ pad, unpackFlags (packFlags fuel bs) = bs ++ pad
+  | 0, _, h => by omega
+  | fuel + 1, [], _ => ⟨[], by simp [packFlags, unpackFlags]⟩
+  | fuel + 1, b :: bs, h => by
+      simp only [packFlags, unpackFlags, List.flatMap_cons]
+      by_cases hl : (b :: bs).length ≤ 8
+      · have e1 : (b :: bs).take 8 = b :: bs := List.take_of_length_le hl
+        have e2 : (b :: bs).drop 8 = [] := List.drop_eq_nil_of_le hl
+        rw [e1, e2, unpack_pack_short _ hl]
+        refine ⟨List.replicate (8 - (b :: bs).length) false, ?_⟩
+        cases fuel <;> simp [packFlags]
+      · have hlen : ((b :: bs).take 8).length = 8 := by simp only [List.length_take]; omega
+        have hdl : ((b :: bs).drop 8).length < fuel := by simp only [List.length_drop]; simp at h ⊢; omega
+        obtain ⟨pad, hp⟩ := unpack_pack fuel ((b :: bs).drop 8) hdl
+        rw [unpack_pack_short _ (by omega), hlen]
+        refine ⟨pad, ?_⟩
+        simp only [unpackFlags] at hp
+        rw [hp]
+        simp only [Nat.sub_self, List.replicate_zero, List.append_nil]
+        rw [← List.append_assoc, List.take_append_drop]
 
 end ElaVerif.PMT
